@@ -63,6 +63,27 @@ def order_literal_edges(body, sym, bb, lo_rx, hi_rx):
     """Edges of the bool switch at bb on which `lo <= hi` is known to hold, where the switch
     tests some spelling of that comparison (le(lo,hi), !lt(hi,lo), ge(hi,lo), !gt(lo,hi))."""
     t = body.term(bb)
+    if t["t"] == "switch" and t.get("dty") != "bool":
+        # `match lo.cmp(&hi) { … }`: the arms for Less and Equal (or Greater and Equal when the operands are swapped)
+        d = strip_deep(sym.operand(t["discr"]))
+        if d[0] == "discr" and d[1][0] == "call" and (d[1][3] or {}).get("name") in ("cmp", "partial_cmp") and len(d[1][2]) == 2 \
+                and ((d[1][3] or {}).get("trait") or "").split("::")[-1] in ("Ord", "PartialOrd") and (d[1][3] or {}).get("name") == "cmp":
+            ra, rb = render(d[1][2][0]), render(d[1][2][1])
+            lo, hi = re.compile(lo_rx), re.compile(hi_rx)
+            if lo.search(ra) and hi.search(rb):
+                good = {255, -1, 0}
+            elif hi.search(ra) and lo.search(rb):
+                good = {1, 0}
+            else:
+                return None
+            vals = {v for v, _ in t["targets"]}
+            out = [(bb, tb) for v, tb in t["targets"] if v in good]
+            # the otherwise edge stands for the values not listed
+            rest = {255, 0, 1} - {(255 if v == -1 else v) for v in vals}
+            if rest and rest <= {(255 if g == -1 else g) for g in good}:
+                out.append((bb, t["otherwise"]))
+            return out or None
+        return None
     if t["t"] != "switch" or t.get("dty") != "bool":
         return None
     e = switch_bool_edges(body, bb)
